@@ -188,9 +188,9 @@ theorem pull_small_layers_verified (H : Bytes → D) (d : D) (f : Bytes) (size :
 theorem ensureFile_links (c : Cache D) (d : D) : (ensureFile c d).links = c.links := by
   unfold ensureFile; split <;> rfl
 
-theorem advance_links (limit : Option Nat) (st : Run D) (ops : List (Op D)) :
-    (advance limit st ops).cache.links = st.cache.links := by
-  fun_induction advance limit st ops <;> simp_all [ensureFile_links]
+theorem advance_links (verify : Bool) (limit : Option Nat) (st : Run D) (ops : List (Op D)) :
+    (advance verify limit st ops).cache.links = st.cache.links := by
+  fun_induction advance verify limit st ops <;> simp_all [ensureFile_links]
 
 theorem applyTask_links (H : Bytes → D) (st : Run D) (t : Registry.Task D) (r : ChunkResp) :
     (applyTask H st t r).cache.links = st.cache.links := by
@@ -202,8 +202,8 @@ theorem applyTask_links (H : Bytes → D) (st : Run D) (t : Registry.Task D) (r 
     · rfl
     · split <;> rfl
 
-theorem step_links (H : Bytes → D) (limit : Option Nat) (st st' : Run D) (s : Step)
-    (h : step H limit st s = some st') : st'.cache.links = st.cache.links := by
+theorem step_links (H : Bytes → D) (verify : Bool) (limit : Option Nat) (st st' : Run D) (s : Step)
+    (h : step H verify limit st s = some st') : st'.cache.links = st.cache.links := by
   cases s with
   | release k r =>
     simp only [step] at h
@@ -216,8 +216,8 @@ theorem step_links (H : Bytes → D) (limit : Option Nat) (st st' : Run D) (s : 
     injection h with h; subst h
     rw [advance_links]
 
-theorem runSteps_links (H : Bytes → D) (limit : Option Nat) (ss : List Step) :
-    ∀ (st st' : Run D), runSteps H limit st ss = some st' → st'.cache.links = st.cache.links := by
+theorem runSteps_links (H : Bytes → D) (verify : Bool) (limit : Option Nat) (ss : List Step) :
+    ∀ (st st' : Run D), runSteps H verify limit st ss = some st' → st'.cache.links = st.cache.links := by
   induction ss with
   | nil => intro st st' h; simp only [runSteps] at h; injection h with h; subst h; rfl
   | cons s ss ih =>
@@ -226,12 +226,12 @@ theorem runSteps_links (H : Bytes → D) (limit : Option Nat) (ss : List Step) :
     split at h
     · cases h
     · rename_i st1 hs
-      rw [ih st1 st' h, step_links H limit st st1 s hs]
+      rw [ih st1 st' h, step_links H verify limit st st1 s hs]
 
 theorem pullRun_links (H : Bytes → D) (cfg : Cfg) (c : Cache D) (m : Manifest D) (a : Attempt D)
     (st : Run D) (h : pullRun H cfg c m a = some st) : st.cache.links = c.links := by
   unfold pullRun at h
-  rw [runSteps_links H cfg.limit a.steps _ st h]
+  rw [runSteps_links H cfg.verify cfg.limit a.steps _ st h]
   unfold startRun
   simp only []
   rw [advance_links]
@@ -266,15 +266,21 @@ theorem pull_links_last (H : Bytes → D) (cfg : Cfg) (c c' : Cache D) (a : Atte
             split at h
             · cases h
             · rename_i hc
-              simp only [Prod.mk.injEq, and_true] at h
               have hdone' : st.ops.isEmpty = true ∧ st.inflight.isEmpty = true := by
                 simpa using hdone
               have hc' : st.completed = expected m := by simpa using hc
+              have hfin : c' = st.cache.link cfg.linkShortcut a.name m := by
+                split at h
+                · split at h
+                  · cases h
+                  · simp only [Prod.mk.injEq, and_true] at h; exact h.symm
+                · simp only [Prod.mk.injEq, and_true] at h; exact h.symm
               exact ⟨by simpa using hdone'.1, by simpa using hdone'.2, hfe, hc',
-                pullRun_links H cfg c m a st hst, h.symm⟩
+                pullRun_links H cfg c m a st hst, hfin⟩
 
-theorem finish_links (cfg : Cfg) (name : Nat) (m : Manifest D) (st : Run D) (h : (finish cfg name m st).2 ≠ .ok) :
-    (finish cfg name m st).1.links = st.cache.links := by
+theorem finish_links (H : Bytes → D) (cfg : Cfg) (name : Nat) (m : Manifest D) (st : Run D)
+    (h : (finish H cfg name m st).2 ≠ .ok) :
+    (finish H cfg name m st).1.links = st.cache.links := by
   unfold finish at h ⊢
   split
   · rfl
@@ -282,7 +288,11 @@ theorem finish_links (cfg : Cfg) (name : Nat) (m : Manifest D) (st : Run D) (h :
     · rfl
     · split
       · rfl
-      · rename_i h1 _ h2 h3; simp [h1, h2, h3] at h
+      · split
+        · split
+          · rfl
+          · rename_i h1 _ h2 h3 h4 _ h5; simp [h1, h2, h3, h4, h5] at h
+        · rename_i h1 _ h2 h3 h4; simp [h1, h2, h3, h4] at h
 
 /-- **A failed pull never links.**  Whatever the registry does, if `Pull` returns an error the
     name → manifest links are exactly what they were before the call. -/
@@ -297,7 +307,7 @@ theorem failed_pull_keeps_links (H : Bytes → D) (cfg : Cfg) (c : Cache D) (a :
       · rfl
       · rename_i _ m hm hne _ st hst
         simp only [hm, hne, hst] at h
-        rw [finish_links cfg a.name m st h, pullRun_links H cfg c m a st hst]
+        rw [finish_links H cfg a.name m st h, pullRun_links H cfg c m a st hst]
 
 /-- a successful pull changes at most the link of its own name -/
 theorem pull_links_other (H : Bytes → D) (cfg : Cfg) (c : Cache D) (a : Attempt D) (n : Nat)
@@ -638,7 +648,7 @@ theorem legacy_push_manifest_last (ls : List LegacyLayer) : ∀ i : Nat,
 /-! ### Witnesses of F10 (the model shares these defects with the code).  `D := Bytes`, `H := id`:
     a digest is its pre-image, so "the file hashes to the layer digest" is "file = digest". -/
 
-def wcfg : Cfg := ⟨2, none, true⟩
+def wcfg : Cfg := ⟨2, none, true, false⟩
 def abc : Bytes := [97, 98, 99]
 def abcd : Bytes := [97, 98, 99, 100]
 def mABC : Manifest Bytes := ⟨1, 100, [⟨abc, 3⟩], none⟩
@@ -690,7 +700,7 @@ theorem F10c_chunk_digests_from_registry :
     verified).  Then a pull of another name whose manifest declares the same digest with size 5
     is not stopped by the size shortcut; its first read is written over the verified blob before
     the digest check fails.  The pull fails, name 0 stays linked, its layer is corrupted. -/
-def dcfg : Cfg := ⟨6, none, true⟩
+def dcfg : Cfg := ⟨6, none, true, false⟩
 def d1 : Attempt Bytes := ⟨0, .ok mABCD, [], [.release 0 (.body [[97, 98], [99, 100]] .eof)]⟩
 def mLie : Manifest Bytes := ⟨3, 101, [⟨abcd, 5⟩], none⟩
 def d2 : Attempt Bytes := ⟨1, .ok mLie, [], [.release 0 (.body [[1, 2], [3, 4, 5]] .eof)]⟩
@@ -702,6 +712,18 @@ theorem F10d_size_lie_overwrites_verified_blob :
     (pullHistory id dcfg Cache.empty [d1, d2]).1.links 1 = none ∧
     (pullHistory id dcfg Cache.empty [d1, d2]).1.files abcd = some [1, 2, 99, 100] := by decide
 
+
+/-- the repaired variant (`verify := true`, proposed_fixes/C09-F10abc-verify-before-link.patch) on the
+    same scripts: (a), (b), (c) end in `ErrIncomplete`, nothing is linked, the bad blob is removed -/
+def rcfg : Cfg := ⟨2, none, true, true⟩
+
+theorem F10abc_repaired_variant :
+    (handlePull id rcfg Cache.empty [a1, a2]).2 = some (.err .incomplete) ∧
+    (handlePull id rcfg Cache.empty [a1, a2]).1.links 0 = none ∧
+    (handlePull id rcfg Cache.empty [a1, a2]).1.files abc = none ∧
+    (pull id rcfg Cache.empty b1).2 = .err .incomplete ∧ (pull id rcfg Cache.empty b1).1.links 0 = none ∧
+    (pull id rcfg Cache.empty c1).2 = .err .incomplete ∧ (pull id rcfg Cache.empty c1).1.links 0 = none := by
+  decide
 
 /-! ### Non-vacuity: the hypotheses of the theorems above are met by non-trivial values -/
 
